@@ -1,8 +1,8 @@
 package zv
 
 import (
-	"go/ast"
 	"fmt"
+	"go/ast"
 	"go/token"
 	"go/types"
 	"sort"
@@ -593,7 +593,7 @@ func c15SkipDelta(c *Ctx, fn *ssa.Function) (delta int64, ok bool, why string) {
 	var results []string
 	seqs, trunc := ConcPaths(fn, ConcCfg{
 		Inline: inl, InlineAny: inl, MaxDepth: 10, MaxStates: 200000, Unroll: true,
-		Devirt: func(m *ssa.Function) bool { return m.Pkg != nil && m.Pkg.Pkg.Path() == ZapPath || m.Synthetic != "" },
+		Devirt:     func(m *ssa.Function) bool { return m.Pkg != nil && m.Pkg.Pkg.Path() == ZapPath || m.Synthetic != "" },
 		InitFields: []FieldVal{{Obj: recv, Field: field, Val: start}},
 		SliceLen:   func(p *ssa.Parameter) (int64, bool) { return 0, true },
 		Event: func(in ssa.Instruction, st *ConcState) string {
